@@ -138,7 +138,15 @@ def poly(t, env=None):
     return p_atom(norm(t, _arith=False))
 
 
+def _is_setlike(t):
+    return is_term(t) and (t[0] == "set" or (t[0] == "comp" and t[1] == "set")
+                           or (t[0] == "call" and t[1] in (("glob", "builtins.set"), ("glob", "builtins.frozenset")))
+                           or (t[0] == "binop" and t[1] in ("-", "|", "&", "^") and (_is_setlike(t[2]) or _is_setlike(t[3]))))
+
+
 def is_arith(t):
+    if t[0] == "binop" and t[1] == "-" and (_is_setlike(t[2]) or _is_setlike(t[3])):
+        return False  # set difference
     if t[0] == "binop" and t[1] in ("+", "-", "*", "/"):
         return True
     if t[0] == "unop" and t[1] in ("-", "+"):
@@ -156,6 +164,28 @@ QUERY_CANON = None  # set by rules_kernel: query string -> canonical selection t
 
 NEG_INF = ("const", "-inf")
 POS_INF = ("const", "inf")
+
+
+def _truthiness(c):
+    """Spellings of `x is non-empty / true` in a condition: bool(x), len(x) > 0, len(x) != 0, len(x) >= 1 -> (x, False);
+    len(x) == 0, len(x) < 1 -> (x, True).  (For the sized containers these are written for.)"""
+    if not is_term(c):
+        return None
+    if c[0] == "call" and c[1] == ("glob", "builtins.bool") and len(c[2]) == 1 and not c[3]:
+        return c[2][0], False
+    if c[0] == "cmp" and len(c[1]) == 1 and len(c[2]) == 2:
+        a, b = c[2]
+        op = c[1][0]
+        if b[0] == "call" and b[1] == ("glob", "builtins.len") and a[0] == "const":
+            a, b = b, a
+            op = {"<": ">", ">": "<", "<=": ">=", ">=": "<=", "==": "==", "!=": "!="}.get(op)
+        if op and a[0] == "call" and a[1] == ("glob", "builtins.len") and len(a[2]) == 1 and not a[3] and b[0] == "const":
+            k = b[1]
+            if (op, k) in ((">", 0), ("!=", 0), (">=", 1)):
+                return a[2][0], False
+            if (op, k) in (("==", 0), ("<", 1), ("<=", 0)):
+                return a[2][0], True
+    return None
 
 
 def _none_test(c):
@@ -267,6 +297,23 @@ def _is_seq_display(t):
                            or (t[0] == "binop" and t[1] == "+" and _is_seq_display(t[2]) and _is_seq_display(t[3])))
 
 
+_ITER_CONSUMERS = {"builtins.any", "builtins.all", "builtins.sum", "builtins.tuple", "builtins.list", "builtins.set",
+                   "builtins.frozenset", "builtins.sorted", "builtins.min", "builtins.max", "builtins.dict", "builtins.enumerate",
+                   "math.prod"}
+
+
+def _iterated(x):
+    """The argument of a consumer that only iterates it: list(y)/tuple(y) -> y, [f(i) for ...] -> (f(i) for ...)."""
+    while is_term(x):
+        if x[0] == "call" and x[1] in (("glob", "builtins.list"), ("glob", "builtins.tuple")) and len(x[2]) == 1 and not x[3]:
+            x = x[2][0]
+        elif x[0] == "comp" and x[1] == "list" and len(x) == 4:
+            return ("comp", "gen", x[2], x[3])
+        else:
+            break
+    return x
+
+
 def _bar_parts(n):
     """Flatten a normalised `|`-chain / dict-merge into its ordered parts."""
     if is_term(n) and n[0] == "bar":
@@ -277,6 +324,13 @@ def _bar_parts(n):
 def _mk_bar(parts):
     out = []
     for p in parts:
+        # a copy of a mapping that is merged into a new mapping: dict(x), x.copy()
+        if is_term(p) and p[0] == "call" and p[1] == ("glob", "builtins.dict") and len(p[2]) == 1 and not p[3] \
+                and not (is_term(p[2][0]) and p[2][0][0] == "call" and p[2][0][1] == ("glob", "builtins.zip")) \
+                and not (is_term(p[2][0]) and p[2][0][0] in ("comp", "list", "tuple")):
+            p = p[2][0]
+        elif is_term(p) and p[0] == "call" and is_term(p[1]) and p[1][0] == "attr" and p[1][2] == "copy" and not p[2] and not p[3]:
+            p = p[1][1]
         if p == ("dict", ()):
             continue  # merging an empty dict changes nothing
         if out and is_term(p) and p[0] == "dict" and is_term(out[-1]) and out[-1][0] == "dict":
@@ -564,7 +618,12 @@ def norm(t, _arith=True):  # noqa: C901, PLR0911, PLR0912
         parts = []
         for x in t[1]:
             if x[0] == "star":
-                parts.append(("seq", norm(_strip_keys(x[1]))))
+                inner = norm(_strip_keys(x[1]))
+                sub_parts = _cat_parts(inner)  # *[a, b], *(x, *y), *([1] * n): spliced
+                if sub_parts is not None:
+                    parts.extend(sub_parts)
+                else:
+                    parts.append(("seq", inner))
             else:
                 parts.append(("list", (norm(x),)))
         return _mk_cat(parts)
@@ -593,6 +652,11 @@ def norm(t, _arith=True):  # noqa: C901, PLR0911, PLR0912
             return ("ifnone", norm(x), a if is_none else b, b if is_none else a)
         flipped = False
         while True:
+            tr = _truthiness(c)
+            if tr is not None:
+                c, neg = tr
+                flipped = flipped != neg
+                continue
             if c[0] == "not" or (c[0] == "unop" and c[1] == "not"):
                 c, flipped = (c[1] if c[0] == "not" else c[2]), not flipped
             elif c[0] == "cmp" and len(c[1]) == 1 and c[1][0] in _NEGATED_CMP:
@@ -610,6 +674,18 @@ def norm(t, _arith=True):  # noqa: C901, PLR0911, PLR0912
             if sel is not None:
                 return ("call", ("attr", norm(f[1]), "query"), (sel,), ())
         name = callee_name(t)
+        if is_term(f) and f[0] == "call" and f[1] == ("glob", "functools.partial") and f[2] and all(k is not None for k, _ in f[3]) \
+                and all(k is not None for k, _ in t[3]) and not any(p[0] == "star" for p in f[2]):
+            # calling a partial object: partial(g, *a, **k)(*b, **c) == g(*a, *b, **{**k, **c})
+            later = {k for k, _ in t[3]}
+            merged = tuple(sorted([(k, v) for k, v in f[3] if k not in later] + list(t[3]), key=lambda kv: kv[0]))
+            return norm(("call", f[2][0], tuple(f[2][1:]) + tuple(t[2]), merged))
+        if name == "builtins.range" and len(t[2]) == 2 and t[2][0] == ("const", 0) and not t[3]:
+            t = ("call", f, (t[2][1],), ())
+        if name in _ITER_CONSUMERS and t[2]:
+            # the consumer only iterates its argument: a list/tuple copy or a list comprehension in place of a
+            # generator makes no difference
+            t = ("call", f, (_iterated(t[2][0]), *t[2][1:]), t[3])
         if name == "builtins.zip" and any(k == "strict" for k, _ in t[3]):
             # whether a length mismatch raises or truncates is not part of the normal form (see deindex)
             t = ("call", f, t[2], tuple((k, v) for k, v in t[3] if k != "strict"))
